@@ -290,7 +290,9 @@ func runC08(args []string) int {
 	if o.tier == "thorough" {
 		nHist = 20000
 	}
-	nHist *= o.boost
+	if o.boost > 1 {
+		nHist *= 3 // a proof obligation broke: search harder, but stop at the first violation found
+	}
 	type hist []c08Call
 	var hists []hist
 	distinct := map[string]c08Call{}
@@ -401,7 +403,11 @@ func runC08(args []string) int {
 		}
 		// shrink: drop earlier calls while the last one still differs
 		small := append(hist{}, hs[:idx+1]...)
-		for i, tries := 0, 0; i < len(small)-1 && tries < 24; tries++ {
+		maxTries := 24
+		if r.nSpec["history"] >= 2 {
+			maxTries = 0
+		}
+		for i, tries := 0, 0; i < len(small)-1 && tries < maxTries; tries++ {
 			cand := append(append(hist{}, small[:i]...), small[i+1:]...)
 			out, err := c08RunChild(cand)
 			last := ""
@@ -468,6 +474,13 @@ func runC08(args []string) int {
 				}
 				check(c, hs, idx, impl.observable(), base.Decoded, "decoded content", data, impl, model, true)
 			}
+		}
+		// a violation with a replay is in hand: no need to run the remaining histories
+		if r.nSpec["history"]+r.nSpec["encode_history"] > 0 && hi >= 20 {
+			r.Notes = append(r.Notes, fmt.Sprintf("stopped after %d histories: violation found", hi+1))
+			r.Extra["histories"] = hi + 1
+			hists = hists[:hi+1]
+			break
 		}
 		if hi < 2 {
 			var ids []string
